@@ -12,6 +12,7 @@ GROUP_FUNCS = {
     'wrapsplit': 'the index expressions and trimming loop of NiftiWrapper.split',
     'wrapmerge': 'the result shape and fill slices of NiftiWrapper.from_sequence',
     'stack': 'the count checks of get_shape, the thorough check of _chk_order', 'stackadd': 'add_dcm, _chk_congruent, _chk_close, _chk_equal',
+    'phoenix': '_parse_phoenix_line',
     'header': 'the repetition-time, dim_info and slice-timing blocks of to_nifti', 'data': 'the trimming block and file index expressions of get_data'}
 
 
